@@ -353,6 +353,22 @@ func genC19Recv(t *rapid.T) c19RecvScenario {
 		p.Sils[0].Sets[0] = append(p.Sils[0].Sets[0], rapid.SampledFrom(c19PoisonMatchers).Draw(t, "poison"))
 		sc.Hostile = append(sc.Hostile, c19Delivery{Via: g.via(), Parts: []c19Part{p}})
 	}
+	if rapid.IntRange(0, 7).Draw(t, "poisonedNewer") == 0 {
+		// a protobuf-valid NEWER version of a silence of S whose matchers do not compile: malformed, so S's silence
+		// must stay as it is (held, effective, handed on in the full state)
+		src := sc.Prior[0].Parts[0]
+		q := c19Part{Key: src.Key, Sils: append([]c19Sil(nil), src.Sils...)}
+		for i := range q.Sils {
+			q.Sils[i].Upd += int64(rapid.IntRange(1, 600).Draw(t, "poisonNewer"))
+			sets := make([][]c19M, len(q.Sils[i].Sets))
+			for j := range sets {
+				sets[j] = append([]c19M(nil), q.Sils[i].Sets[j]...)
+			}
+			sets[0] = append(sets[0], rapid.SampledFrom(c19PoisonMatchers).Draw(t, "poison"))
+			q.Sils[i].Sets = sets
+		}
+		sc.Hostile = append(sc.Hostile, c19Delivery{Via: g.via(), Parts: []c19Part{q}})
+	}
 	sc.After = append(sc.After, c19Delivery{Via: g.via(), Parts: []c19Part{g.silPart("a", "active")}})
 	sc.After = append(sc.After, c19Delivery{Via: g.via(), Parts: []c19Part{g.entPart("a")}})
 	if rapid.Bool().Draw(t, "newerVersion") {
@@ -851,6 +867,10 @@ func c19ExecRecv(sc c19RecvScenario) (res pbt.Result) {
 			if c19Uncompilable(m.Silence) {
 				poisonIDs = append(poisonIDs, id)
 			}
+			// (a version whose matchers do not compile is malformed: it replaces nothing, however new it claims to be)
+			if c19Uncompilable(m.Silence) {
+				continue
+			}
 			if w, ok := want.sil[id]; ok && m.Silence.UpdatedAt.AsTime().After(x.ts(w.Upd).AsTime()) {
 				want.exempt[id] = true
 			}
@@ -1004,7 +1024,7 @@ func c19ExecRecv(sc c19RecvScenario) (res pbt.Result) {
 	return res
 }
 
-const c19ReceiveRule = "a fresh silences store and notification log behind the real delegate of a never-joined Peer; prior state S = 2-4 valid deliveries (NotifyMsg parts / MergeRemoteState full states; active, pending and expired silences, current and legacy matcher encoding, payloads below and above the gossip limit); then 1-5 hostile deliveries: arbitrary bytes, real messages truncated / bit-flipped / with inserted, deleted or overwritten bytes (message level and payload level), parts with unknown keys, full states of 2-5 parts mixing valid parts, unknown keys, malformed payloads, valid messages followed by garbage, payloads of the other state, empty payloads, duplicates and stale versions of S in generated order, each optionally delivered up to 4 times; then valid updates (new items, newer versions of S). Oracle: no panic; every item of S answers its query identically (unless the bytes contained a newer version of it: counted as excluded); every item of a well-formed part under a known key is held afterwards wherever the part stood; alerts covered by a held active silence are muted (cached and never-seen label set); an uncovered alert is not muted when no foreign silence was decodable from the input; LocalState merged into a second fresh instance reproduces everything. Non-trivial: at least one hostile delivery decoded to a Part with a key or a FullState with parts. 1 in 40 cases adds a protobuf-valid silence with an uncompilable matcher (known finding F9); accidental ones are recognised from the bytes."
+const c19ReceiveRule = "a fresh silences store and notification log behind the real delegate of a never-joined Peer; prior state S = 2-4 valid deliveries (NotifyMsg parts / MergeRemoteState full states; active, pending and expired silences, current and legacy matcher encoding, payloads below and above the gossip limit); then 1-5 hostile deliveries: arbitrary bytes, real messages truncated / bit-flipped / with inserted, deleted or overwritten bytes (message level and payload level), parts with unknown keys, full states of 2-5 parts mixing valid parts, unknown keys, malformed payloads, valid messages followed by garbage, payloads of the other state, empty payloads, duplicates and stale versions of S in generated order, each optionally delivered up to 4 times; then valid updates (new items, newer versions of S). Oracle: no panic; every item of S answers its query identically (unless the bytes contained a newer version of it: counted as excluded); every item of a well-formed part under a known key is held afterwards wherever the part stood; alerts covered by a held active silence are muted (cached and never-seen label set); an uncovered alert is not muted when no foreign silence was decodable from the input; LocalState merged into a second fresh instance reproduces everything. Non-trivial: at least one hostile delivery decoded to a Part with a key or a FullState with parts. 1 in 40 cases adds a protobuf-valid silence with an uncompilable matcher (finding F9, fixed), 1 in 8 a protobuf-valid NEWER version of a silence of S with an uncompilable matcher (malformed: it must replace nothing); accidental ones are recognised from the bytes."
 
 func init() {
 	// F9: Silences.Merge stores a silence whose matchers do not compile; every later
